@@ -142,6 +142,43 @@ pub fn decode(b: &[u8]) -> Result<Msg, RefErr> {
     Ok(Msg { fields })
 }
 
+/// Lenient parse for inspecting deliberately invalid messages (fault injection shuffles the tag
+/// order): count, aligned monotone in-range offsets; tags may be unknown, repeated and in any order.
+pub fn decode_lenient(b: &[u8]) -> Option<Vec<([u8; 4], Vec<u8>)>> {
+    if b.len() < 4 || b.len() % 4 != 0 {
+        return None;
+    }
+    let n = rd(b, 0)? as usize;
+    if n == 0 {
+        return Some(vec![]);
+    }
+    if n > 64 {
+        return None;
+    }
+    let hl = header_len(n);
+    if b.len() < hl {
+        return None;
+    }
+    let area = b.len() - hl;
+    let mut offs = vec![0usize];
+    for i in 0..n - 1 {
+        let o = rd(b, 4 + 4 * i)? as usize;
+        if o % 4 != 0 || o > area || o < *offs.last().unwrap() {
+            return None;
+        }
+        offs.push(o);
+    }
+    offs.push(area);
+    let tbase = 4 + 4 * (n - 1);
+    let mut out = vec![];
+    for i in 0..n {
+        let mut t = [0u8; 4];
+        t.copy_from_slice(&b[tbase + 4 * i..tbase + 4 * i + 4]);
+        out.push((t, b[hl + offs[i]..hl + offs[i + 1]].to_vec()));
+    }
+    Some(out)
+}
+
 /// Encode without validation (caller is responsible for order/alignment).
 pub fn encode(m: &Msg) -> Vec<u8> {
     let n = m.fields.len();
